@@ -47,6 +47,19 @@ type group struct {
 
 var reInst = regexp.MustCompile(`@\d+$`)
 
+type BoundedSpec struct {
+	Property    string   `json:"property"`
+	Name        string   `json:"name"`
+	Pkg         string   `json:"pkg"`
+	File        string   `json:"file"`
+	Run         string   `json:"run"`
+	Tags        string   `json:"tags"`
+	Bound       string   `json:"bound"`
+	StandsInFor string   `json:"stands_in_for"`
+	QuickEnv    []string `json:"quick_env"`
+	ThoroughEnv []string `json:"thorough_env"`
+}
+
 func groupName(ob *Ob) string { return reInst.ReplaceAllString(ob.Name, "") }
 
 func loadJSON(path string, v interface{}) error {
@@ -186,7 +199,7 @@ func checkMain(args []string) int {
 		}
 		// container/heap.down/post#x : function name itself may contain '/'
 		fn = ledgerFunc(gn)
-		if k := ledgerKind(gn); k == "nopanic" || k == "overflow" || strings.HasPrefix(k, "pre@") {
+		if k := ledgerKind(gn); k == "nopanic" || k == "overflow" || strings.HasPrefix(k, "pre@") || autoGenerated(gn) {
 			// safety side-conditions come and go with harmless edits; their absence is not a finding
 			if _, bad := errFuncs[fn]; !bad {
 				continue
@@ -273,6 +286,50 @@ func checkMain(args []string) int {
 		fmt.Println(line)
 		violations = append(violations, g.Name)
 	}
+	// bounded stand-ins (labelled bounded, never counted among the discharged obligations)
+	var boundedSpecs []BoundedSpec
+	loadJSON(filepath.Join(verifDir, "bounded", "bounded.json"), &boundedSpecs)
+	var boundedEv []map[string]interface{}
+	for _, bs := range boundedSpecs {
+		if bs.Property != prop {
+			continue
+		}
+		env := bs.QuickEnv
+		if *tier == "thorough" {
+			env = bs.ThoroughEnv
+		}
+		tb := time.Now()
+		res, failed := runInjected(ReplaySpec{Pkg: bs.Pkg, File: bs.File, Run: bs.Run, Tags: bs.Tags}, "bounded", env)
+		line := ""
+		for _, l := range strings.Split(res.out, "\n") {
+			if strings.HasPrefix(strings.TrimSpace(l), "VERIF-BOUNDED ") {
+				line = strings.TrimSpace(l)
+			}
+		}
+		rec := map[string]interface{}{"name": bs.Name, "stands_in_for": bs.StandsInFor, "bound": bs.Bound, "cmd": res.cmd, "env": env,
+			"result_line": line, "wall_s": round2(time.Since(tb).Seconds()), "passed": !failed && line != ""}
+		boundedEv = append(boundedEv, rec)
+		if failed || line == "" {
+			path := filepath.Join(outDir, "bounded_"+mangle(bs.Name)+".replay.json")
+			rec2 := map[string]interface{}{"property": prop, "obligation": "bounded:" + bs.Name, "kind": "bounded", "replay_test": filepath.Join(verifDir, "bounded", bs.File),
+				"replay_cmd": res.cmd, "replay_output": headTail(res.out, 4000), "replay_failed_on_real_code": failed}
+			b, _ := json.MarshalIndent(rec2, "", " ")
+			os.WriteFile(path, b, 0644)
+			if kf := matchKnown(known, prop, "bounded:"+bs.Name); kf != nil {
+				fmt.Printf("KNOWN-FINDING: property=%s bounded:%s %s\n", prop, bs.Name, kf.Witness)
+				knownHit = append(knownHit, "bounded:"+bs.Name)
+				continue
+			}
+			l := fmt.Sprintf("VIOLATION property=%s replay=%s obligation=bounded:%s status=%s", prop, path, bs.Name, map[bool]string{true: "failed", false: "did-not-run"}[failed])
+			if !failed {
+				l += " no-failing-input-found"
+			}
+			fmt.Println(l)
+			violations = append(violations, "bounded:"+bs.Name)
+		} else {
+			fmt.Printf("bounded: %s: %s\n", bs.Name, line)
+		}
+	}
 	sort.Strings(violations)
 
 	// evidence
@@ -307,6 +364,14 @@ func checkMain(args []string) int {
 		"integers: int-mode functions use mathematical integers with wrap-around for unsigned operations and an overflow obligation on every signed operation; bv-mode functions use exact 64/32/16/8-bit vectors",
 		"floats are an uninterpreted sort; only the strict-weak-order axioms on non-NaN values are assumed where `trust floatorder` is declared",
 		"slices: offset+capacity <= 2^48 (amd64 address space)")
+	for _, be := range boundedEv {
+		assumes = append(assumes, fmt.Sprintf("BOUNDED stand-in, not a proof and not counted in obligations/discharged: %v (%v) for %v", be["name"], be["bound"], be["stands_in_for"]))
+	}
+	for _, r := range results {
+		if r.Contract != nil && len(r.Contract.Safety) > 0 && !hasProp(r.Contract.Safety, prop) {
+			assumes = append(assumes, fmt.Sprintf("run-time panics / signed overflow / callee preconditions inside %s are not obligations of this property (owner: %s)", r.Name, strings.Join(r.Contract.Safety, " ")))
+		}
+	}
 	if len(samples) == 0 {
 		samples = append(samples, map[string]interface{}{"note": "no discharged obligation to sample"})
 	}
@@ -333,6 +398,7 @@ func checkMain(args []string) int {
 			"violations":   violations,
 			"outside_subset": outside,
 			"cover_checks_vacuous": vacuous,
+			"bounded":      boundedEv,
 		},
 		"assumptions": assumes,
 		"wall_s":      round2(time.Since(t0).Seconds()),
@@ -372,6 +438,24 @@ func checkMain(args []string) int {
 		return 1
 	}
 	return 0
+}
+
+// autoGenerated: obligations the generator derives from the shape of the code (automatic loop frames, range bounds) rather than
+// from a clause of the contract; they appear and disappear with harmless restructuring, so their absence is not a finding.
+func autoGenerated(gn string) bool {
+	i := strings.LastIndex(gn, "/")
+	if i < 0 {
+		return false
+	}
+	k := gn[i+1:]
+	return (strings.HasPrefix(k, "frame#loop")) || (strings.HasPrefix(k, "inv#loop") && strings.Contains(k, ".autorange."))
+}
+
+func headTail(s string, n int) string {
+	if len(s) <= 2*n {
+		return s
+	}
+	return s[:n] + "\n…\n" + s[len(s)-n:]
 }
 
 func round2(f float64) float64 { return float64(int(f*100+0.5)) / 100 }
@@ -460,27 +544,47 @@ type replayRes struct {
 
 // runReplay injects an in-package test with -overlay (nothing is written to /repo) and runs it.
 func runReplay(rs ReplaySpec) (replayRes, bool) {
+	return runInjected(rs, "replay", nil)
+}
+
+// runInjected injects an in-package test file from /verif/<sub> with -overlay (nothing is written to /repo) and runs it.
+func runInjected(rs ReplaySpec, sub string, env []string) (replayRes, bool) {
 	tmp, err := os.MkdirTemp("", "govc-replay")
 	if err != nil {
 		return replayRes{out: err.Error()}, false
 	}
 	defer os.RemoveAll(tmp)
 	ov := map[string]map[string]string{"Replace": {
-		filepath.Join(repoDir(), rs.Pkg, "zz_verif_replay_test.go"): filepath.Join(verifDir, "replay", rs.File)}}
+		filepath.Join(repoDir(), rs.Pkg, "zz_verif_"+sub+"_test.go"): filepath.Join(verifDir, sub, rs.File)}}
 	ob, _ := json.Marshal(ov)
 	ovf := filepath.Join(tmp, "ov.json")
 	os.WriteFile(ovf, ob, 0644)
-	args := []string{"test", "-overlay", ovf, "-vet=off", "-count=1", "-timeout", "120s", "-run", rs.Run}
+	to := "120s"
+	if sub == "bounded" {
+		to = "1500s"
+	}
+	args := []string{"test", "-overlay", ovf, "-vet=off", "-count=1", "-timeout", to, "-run", rs.Run}
+	if sub == "bounded" {
+		args = append(args, "-v")
+	}
 	if rs.Tags != "" {
 		args = append(args, "-tags", rs.Tags)
 	}
 	args = append(args, "./"+rs.Pkg)
 	cmd := exec.Command("go", args...)
+	if sub == "bounded" {
+		// address-space cap: a Load that sizes allocations from numbers it read dies quickly instead of eating the machine
+		cmd = exec.Command("sh", append([]string{"-c", "ulimit -v 16000000; exec go \"$@\"", "go"}, args...)...)
+	}
 	cmd.Dir = repoDir()
 	cmd.Env = append(os.Environ(), "GOFLAGS=-mod=mod", "GOPROXY=off", "GOSUMDB=off", "GOTOOLCHAIN=local", "GOCACHE="+goCache())
+	cmd.Env = append(cmd.Env, env...)
 	outb, err := cmd.CombinedOutput()
 	res := replayRes{cmd: "go " + strings.Join(args, " "), out: string(outb)}
-	failed := err != nil && strings.Contains(string(outb), "--- FAIL")
+	failed := err != nil && (strings.Contains(string(outb), "--- FAIL") || strings.Contains(string(outb), "panic:") || strings.Contains(string(outb), "fatal error:"))
+	if err != nil && !failed {
+		res.out += "\n(go test did not run to completion: " + err.Error() + ")"
+	}
 	return res, failed
 }
 
